@@ -14,7 +14,7 @@ use crate::subject::*;
 use serde_json::json;
 use std::time::Instant;
 
-const POSITIONS: [&str; 8] = ["row entry", "bits argument", "let", "loop bound", "repeat bound", "while condition", "declaration", "ite branch"];
+const POSITIONS: [&str; 9] = ["row entry", "bits argument", "let", "loop bound", "repeat bound", "while condition", "declaration", "ite branch", "declaration with rows inside loops"];
 
 fn sigs(w: usize) -> Vec<Sig> {
     vec![Sig::inp("A", w, 0), Sig::out("O", w), Sig::bidir("D", w, V::Num(0)), Sig::out("p", 64), Sig::out("q", 64)]
@@ -35,7 +35,15 @@ fn place(e: &Expr, pos: usize) -> Vec<Stmt> {
         4 => vec![Stmt::Repeat(e.clone(), vec![Entry::Paren(name("n")), Entry::X, l(0), Entry::X]), plain()],
         5 => vec![Stmt::While(e.clone(), vec![plain()]), plain()],
         6 => vec![Stmt::Declare("V".into(), e.clone()), plain(), plain()],
-        _ => vec![Stmt::Row(vec![Entry::Paren(ite(name("p"), e.clone(), lit(1))), Entry::Paren(ite(name("p"), lit(2), e.clone())), l(0), Entry::X]), plain()],
+        7 => vec![Stmt::Row(vec![Entry::Paren(ite(name("p"), e.clone(), lit(1))), Entry::Paren(ite(name("p"), lit(2), e.clone())), l(0), Entry::X]), plain()],
+        // the declared signal is evaluated for rows inside loops (three rows, then one, then one at depth 2)
+        _ => vec![
+            Stmt::Declare("V".into(), e.clone()),
+            Stmt::Let("v".into(), lit(1)),
+            Stmt::Loop("i".into(), lit(3), vec![Stmt::Row(vec![Entry::Paren(name("i")), Entry::X, l(0), Entry::X])]),
+            Stmt::Loop("j".into(), lit(1), vec![plain(), Stmt::Loop("k".into(), lit(1), vec![Stmt::Row(vec![Entry::Paren(name("v")), Entry::X, l(0), Entry::X])])]),
+            plain(),
+        ],
     }
 }
 
@@ -165,11 +173,18 @@ pub fn run(tier: Tier, seed: u64) -> i32 {
     let ops = [BinOp::Div, BinOp::Rem, BinOp::Add, BinOp::Sub, BinOp::Mul, BinOp::Shl, BinOp::Shr];
 
     // T1: arithmetic over boundary operands read from the device, in every position
-    let n = (ops.len() as u64 + 1) * (vals.len() * vals.len()) as u64 * POSITIONS.len() as u64;
-    let st = par_range("T1: {/ % + - * << >> unary-} x V^2 boundary operands (read from 64-bit device outputs) x 8 expression positions; width cycles over {1,2,63,64}", n, &deadline, |idx, st| {
-        let d = digits(idx, &[POSITIONS.len() as u64, vals.len() as u64, vals.len() as u64, ops.len() as u64 + 1]);
+    let n = (ops.len() as u64 + 2) * (vals.len() * vals.len()) as u64 * POSITIONS.len() as u64;
+    let st = par_range("T1: {/ % + - * << >> unary- random(p)+random(q-p)} x V^2 boundary operands (read from 64-bit device outputs) x 9 expression positions; width cycles over {1,2,63,64}", n, &deadline, |idx, st| {
+        let d = digits(idx, &[POSITIONS.len() as u64, vals.len() as u64, vals.len() as u64, ops.len() as u64 + 2]);
         let (pos, x, y, oi) = (d[0], vals[d[1]], vals[d[2]], d[3]);
-        let e = if oi < ops.len() { bin(ops[oi], name("p"), name("q")) } else { un(UnOp::Neg, bin(BinOp::Sub, name("p"), name("q"))) };
+        let e = if oi < ops.len() {
+            bin(ops[oi], name("p"), name("q"))
+        } else if oi == ops.len() {
+            un(UnOp::Neg, bin(BinOp::Sub, name("p"), name("q")))
+        } else {
+            // a bound read from the device: every boundary value, MIN and MAX included
+            bin(BinOp::Add, random(name("p")), random(bin(BinOp::Sub, name("q"), name("p"))))
+        };
         let w = widths[(idx % 4) as usize];
         let prog = Program { header: header(), body: place(&e, pos) };
         let script = vec![Step::Ans(answer(V::Num(x), V::Num(y), true))];
@@ -321,6 +336,42 @@ pub fn run(tier: Tier, seed: u64) -> i32 {
         }
     }
 
+    // T9: whatever from_str and with_signals accept of the texts beyond the small scope (long names,
+    // wide headers, chains through all precedence levels, built-in functions in other letter case
+    // and with any number of arguments, literals around 2^63) runs without panicking
+    {
+        let texts = crate::props::c09::beyond_small_scope();
+        let st = par_range("T9: texts beyond the small scope that are accepted, iterated (dynamic and static)", texts.len() as u64, &deadline, |u, st| {
+            let text = &texts[u as usize];
+            let Ok(Ok(parsed)) = parse(text, DEFAULT_BUDGET) else { return };
+            let sg: Vec<Sig> = parsed.signals.iter().map(|n| Sig::inp(n, 8, 0)).collect();
+            let real = sg.iter().map(|s| s.to_real()).collect();
+            let Ok(Ok(tc)) = guard(DEFAULT_BUDGET, move || parsed.with_signals(real)) else { return };
+            st.evals += 1;
+            st.nontrivial += 1;
+            st.witness("accepted_text_beyond_the_small_scope_iterated");
+            let script = vec![Step::Ans(vec![])];
+            let mut opts = RunOpts::new(12);
+            opts.repeat_last = true;
+            opts.collect_vars = true;
+            opts.continue_after_error = true;
+            let obs = run_loaded(&tc, &sg, true, &script, &opts);
+            let mut bad = match &obs.init {
+                ObsInit::Panic(s) => Some(s.clone()),
+                _ => obs.items.iter().find_map(|i| if let ObsItem::Panic(s) = i { Some(s.clone()) } else { None }).or(obs.vars_panic.clone()),
+            };
+            if bad.is_none() {
+                if let StaticObs::Panic(s) = run_static_opt(&tc, 12, 1, 50_000, true) {
+                    bad = Some(s);
+                }
+            }
+            if let Some(s) = bad {
+                st.violation(&format!("accepted test panics {}", panic_site(&s)), (8 << 40) + u, format!("T9: accepted, panics when run\ntext: {text:?}\n{s}"), || dyn_replay(text, &sg, true, &script, &opts, vec!["rows / error items / end".into()], &obs, &s));
+            }
+        });
+        total.merge(st);
+    }
+
     // T7: whatever with_signals accepts from the C11 menu must run without panicking
     {
         let menu: Vec<Sig> = vec![Sig::inp("A", 4, 0), Sig::out("A", 4), Sig::bidir("A", 4, V::Num(2)), Sig::inp("B", 4, 1), Sig::out("Q", 4), Sig::inp("Q", 4, 0), Sig::bidir("Q", 4, V::Z), Sig::out("A_out", 4), Sig::out("V", 4), Sig::inp("A_out", 4, 0), Sig::inp("Q_out", 1, 1)];
@@ -363,7 +414,7 @@ pub fn run(tier: Tier, seed: u64) -> i32 {
     }
     total.sample(|| json!({"T1_example": "A O D D_out / ( p / q ) ( p / q ) ( p / q ) ( p / q ) with p = MIN, q = -1 on 63-bit signals", "oracle": "never panics (construction, next, vars, static iteration); error item exactly where the reference predicts division by zero, unassigned variable, empty random range, unimplemented function, Z/X read; rows otherwise"}));
     let mut required: Vec<&'static str> = POSITIONS.to_vec();
-    required.extend(["division_or_remainder_by_zero", "variable_never_assigned_on_the_executed_path", "read_of_Z_or_X", "empty_random_range", "function_not_implemented", "signal_width_63_or_64", "driver_error_at_a_call", "layout_omits_a_read_output", "driver_returns_Z_or_X", "bits_64", "static_iteration_exercised", "accepted_pair_iterated", "history_of_rows", "caller_carries_on_after_an_error_item"]);
+    required.extend(["division_or_remainder_by_zero", "variable_never_assigned_on_the_executed_path", "read_of_Z_or_X", "empty_random_range", "function_not_implemented", "signal_width_63_or_64", "driver_error_at_a_call", "layout_omits_a_read_output", "driver_returns_Z_or_X", "bits_64", "static_iteration_exercised", "accepted_pair_iterated", "history_of_rows", "caller_carries_on_after_an_error_item", "accepted_text_beyond_the_small_scope_iterated"]);
     let meta = CheckMeta {
         id: "C10",
         tier,
